@@ -134,6 +134,9 @@ type ScriptSub struct {
 	IgnoreCtx bool
 	// Buffer is the capacity of the subscription channels.
 	Buffer int
+	// Prefill, when set, returns messages that are already waiting in the n-th subscription's (buffered) channel when
+	// Subscribe returns: a subscriber with a backlog.
+	Prefill func(n int) []*message.Message
 	// CloseErr, when set, decides what the n-th Close call (1-based) returns.
 	CloseErr func(call int) error
 }
@@ -168,6 +171,15 @@ func (s *ScriptSub) Subscribe(ctx context.Context, topic string) (<-chan *messag
 		N: n, Ctx: ctx, Topic: topic,
 		ch:      make(chan *message.Message, s.Buffer),
 		closing: make(chan struct{}),
+	}
+	if s.Prefill != nil {
+		// a backlog: these messages are in the channel before Subscribe returns (as many as the buffer holds)
+		for _, m := range s.Prefill(n) {
+			select {
+			case sub.ch <- m:
+			default:
+			}
+		}
 	}
 	s.subs = append(s.subs, sub)
 	s.mu.Unlock()
